@@ -64,6 +64,75 @@ ParamCheckFails(ev) ==
                        : k \in 1..Len(ev.stages) }
           ELSE {})
 
+---------------------------------------------------------------------------
+(* The Circuit object as an abstract data type: what every public mutator  *)
+(* must do to the state (cells, nets, rows), and when it must refuse.      *)
+(* State and arguments are in the vocabulary of the trace projection:      *)
+(* cells [w,h,f,ob,p,x,y,o], nets [wt (float bits), pins [c (1-based), dx, *)
+(* dy]], rows [x0,x1,y0,y1,o].                                             *)
+ONE_F == 1065353216   \* bit pattern of 1.0f, the default net weight
+VecSetters == {"setCellX", "setCellY", "setCellWidth", "setCellHeight", "setCellIsFixed", "setCellIsObstruction",
+               "setCellOrientation", "setCellRowPolarity", "setSolution"}
+ApiValid(kind, a, c) ==
+    LET n == Len(c.cells) IN
+    IF kind \in VecSetters THEN Len(a.v) = n
+    ELSE IF kind = "setNetWeights" THEN Len(a.v) = Len(c.nets)
+    ELSE IF kind = "addNet" THEN Len(a.dx) = Len(a.cells) /\ Len(a.dy) = Len(a.cells) /\ \A k \in 1..Len(a.cells) : a.cells[k] \in 1..n
+    ELSE IF kind = "setNets"
+         THEN /\ Len(a.lim) >= 1 /\ a.lim[1] = 0
+              /\ a.lim[Len(a.lim)] = Len(a.cells) /\ Len(a.dx) = Len(a.cells) /\ Len(a.dy) = Len(a.cells)
+              /\ (Len(a.w) = 0 \/ Len(a.w) = Len(a.lim) - 1)
+              /\ \A k \in 1..(Len(a.lim) - 1) : a.lim[k] <= a.lim[k + 1]
+              /\ \A k \in 1..Len(a.cells) : a.cells[k] \in 1..n
+    ELSE IF kind = "setupRows" THEN a.h > 0
+    ELSE TRUE   \* setRows
+
+PinsOf(cells, dx, dy, lo, hi) == [k \in 1..(hi - lo) |-> [c |-> cells[lo + k], dx |-> dx[lo + k], dy |-> dy[lo + k]]]
+\* rows of setupRows: bottom-up strips of height h that fit entirely; orientation N / FS, alternating if asked, first = N iff init
+RECURSIVE StripRows(_, _, _)
+StripRows(a, y, orient) ==
+    IF y + a.h > a.y1 THEN <<>>
+    ELSE <<[x0 |-> a.x0, x1 |-> a.x1, y0 |-> y, y1 |-> y + a.h, o |-> IF orient THEN "N" ELSE "FS"]>> \o
+         StripRows(a, y + a.h, IF a.alt THEN ~orient ELSE orient)
+ApiEffect(kind, a, c) ==
+    LET n == Len(c.cells)
+        upd(f(_, _)) == [c EXCEPT !.cells = [i \in 1..n |-> f(c.cells[i], i)]] IN
+    IF kind = "setCellX" THEN upd(LAMBDA e, i : [e EXCEPT !.x = a.v[i]])
+    ELSE IF kind = "setCellY" THEN upd(LAMBDA e, i : [e EXCEPT !.y = a.v[i]])
+    ELSE IF kind = "setCellWidth" THEN upd(LAMBDA e, i : [e EXCEPT !.w = a.v[i]])
+    ELSE IF kind = "setCellHeight" THEN upd(LAMBDA e, i : [e EXCEPT !.h = a.v[i]])
+    ELSE IF kind = "setCellIsFixed" THEN upd(LAMBDA e, i : [e EXCEPT !.f = a.v[i]])
+    ELSE IF kind = "setCellIsObstruction" THEN upd(LAMBDA e, i : [e EXCEPT !.ob = a.v[i]])
+    ELSE IF kind = "setCellOrientation" THEN upd(LAMBDA e, i : [e EXCEPT !.o = a.v[i]])
+    ELSE IF kind = "setCellRowPolarity" THEN upd(LAMBDA e, i : [e EXCEPT !.p = a.v[i]])
+    ELSE IF kind = "setSolution" THEN upd(LAMBDA e, i : [e EXCEPT !.x = a.v[i].x, !.y = a.v[i].y, !.o = a.v[i].o])
+    ELSE IF kind = "setNetWeights" THEN [c EXCEPT !.nets = [k \in 1..Len(c.nets) |-> [c.nets[k] EXCEPT !.wt = a.v[k]]]]
+    ELSE IF kind = "addNet"
+         THEN (IF Len(a.cells) = 0 THEN c   \* an empty net is silently not added
+               ELSE [c EXCEPT !.nets = Append(@, [wt |-> a.wt, pins |-> PinsOf(a.cells, a.dx, a.dy, 0, Len(a.cells))])])
+    ELSE IF kind = "setNets"
+         THEN [c EXCEPT !.nets = [k \in 1..(Len(a.lim) - 1) |->
+                                    [wt |-> IF Len(a.w) = 0 THEN ONE_F ELSE a.w[k], pins |-> PinsOf(a.cells, a.dx, a.dy, a.lim[k], a.lim[k + 1])]]]
+    ELSE IF kind = "setRows" THEN [c EXCEPT !.rows = a.rows]
+    ELSE [c EXCEPT !.rows = StripRows(a, a.y0, a.init)]
+
+\* one logged call: outcome and state after against the abstract data type; wirelength and placed sizes of the state defined by the calls
+ApiFails(ev, before) ==
+    LET valid == ApiValid(ev.kind, ev.arg, before)
+        exp == IF valid THEN ApiEffect(ev.kind, ev.arg, before) ELSE before
+        n == Len(exp.cells) IN
+    (IF valid /\ ev.outcome # "ok" THEN {F_("C19", <<"a valid call was refused", ev.kind, ev.what>>, "api-valid-refused")} ELSE {}) \cup
+    (IF ~valid /\ ev.outcome = "ok" THEN {F_("C19", <<"an invalid call was accepted", ev.kind, ev.arg>>, "api-invalid-accepted")} ELSE {}) \cup
+    (IF ~valid /\ ev.circ # before THEN {F_("C19", <<"a refused call changed the circuit", ev.kind>>, "api-sideeffect")} ELSE {}) \cup
+    (IF valid /\ ev.outcome = "ok" /\ ev.circ # exp
+     THEN {F_("note", <<"state after the call differs from the abstract data type", ev.kind, ev.arg>>, "api-effect-diff")}
+     ELSE {F_("note", <<"api">>, "api-effect-same")}) \cup
+    \* C09 on the state the calls define (not on the state the object claims to have)
+    (IF (valid => ev.outcome = "ok") /\ ev.wl # Hpwl(exp)
+     THEN {F_("C09", <<"wirelength of the state defined by the calls", ev.kind, ev.wl, Hpwl(exp)>>, "api-hpwl")} ELSE {}) \cup
+    (IF (valid => ev.outcome = "ok") /\ (ev.pw # [i \in 1..n |-> PW(exp.cells[i])] \/ ev.ph # [i \in 1..n |-> PH(exp.cells[i])])
+     THEN {F_("C09", <<"placed sizes of the state defined by the calls", ev.kind>>, "api-placed-size")} ELSE {})
+
 \* callback grammars
 RECURSIVE AllIn(_, _)
 AllIn(s, S) == \A k \in 1..Len(s) : s[k] \in S
